@@ -16,6 +16,7 @@
    the pair of Section variables [tr_req] / [tr_rsp]; C02_Spec states what is assumed of them, the extracted
    model instantiates them with the identity.  No proofs here. *)
 From V Require Export Base C03_Model.
+From V Require Export C02_Consts.
 Open Scope N_scope.
 
 (* ------------------------------------------------------------------ *)
@@ -648,6 +649,26 @@ Definition std_query (get : bool) (codec comp : N) : list header :=
         mkH (bs "message") [[]]]
   else [].
 
+(* ---- which HTTP method the reference client's set-up picks (referenceclient/client.go, invoke) ----
+   connect.WithHTTPGet() makes connect-go issue calls of side-effect-free methods as GET; the one further option that
+   has a say is connect.WithHTTPGetMaxURLSize(n, fallback): URLs longer than n go out as POST (or fail).  The
+   conformance runner expects GET for every case that sets use_get_http_method (x-expect-http-method in
+   server_runner.go, connect_get_info in populateExpectedUnaryResponse) WHATEVER the size of the message, so the
+   documented set-up is: GET enabled, no cap on the URL.  The options the code installs are regenerated into
+   C02_Consts.v (1 = WithHTTPGet, 2 = WithHTTPGetMaxURLSize, in source order). *)
+Record get_setup := mkGS { gs_enabled : bool; gs_url_cap : option Z }.
+Definition sent_as_get (s : get_setup) (use_get : bool) (url_len : Z) : bool :=
+  gs_enabled s && use_get && match gs_url_cap s with None => true | Some m => (url_len <=? m)%Z end.
+Definition documented_get_setup : get_setup := mkGS true None.
+Definition setup_of (options : list Z) (cap : Z) : get_setup :=
+  mkGS (existsb (Z.eqb 1) options) (if existsb (Z.eqb 2) options then Some cap else None).
+(* the URL of a GET carries the whole request message: it is at least as long as the request data *)
+Definition url_floor (tc : tcase) : Z :=
+  fold_right (fun r a => (Z.of_nat (length (rq_data r)) + a)%Z) 0%Z (t_requests tc).
+(* the query the reference server's handler sees for a permutation of [tc] sent by the reference client *)
+Definition ref_client_query (tc : tcase) (use_get : bool) (codec comp : N) : list header :=
+  std_query (sent_as_get documented_get_setup use_get (url_floor tc)) codec comp.
+
 (* ((grpc-client grpc-server) (cfg ...) (test ...)) -> per config case in the given order, per applicable test in the
    given order: (name cfg verdict observed).  The verdict is the one the property demands of a well-formed case;
    a case that is not well-formed is a bad case (so is a batch that uses one name twice: the harness looks results
@@ -669,7 +690,7 @@ Definition run_c02_live (args : list sx) : sx :=
             map (fun tc =>
                    L [B (t_name tc); L (map I cfg); B (bs "pass");
                       sx_result (req_names tc) (rsp_names tc)
-                                (observed id_hdrs std_query id_wire server client (cfg_codec cfg) (cfg_comp cfg) tc)])
+                                (observed id_hdrs (ref_client_query tc) id_wire server client (cfg_codec cfg) (cfg_comp cfg) tc)])
                 (filter (fun tc => applicable gc gs cfg (t_stype tc) (t_get tc)) tcs)) cfgs))
     end
   | _ => None end).
